@@ -388,7 +388,13 @@ template <class A> void run(Ctx& ctx) {
             A a(P);
             int nkeys = (int)P.knob("keys", 3); long mask = P.knob("prefill_mask");
             int nid = 5000; Op o;
-            for (int k = 1; k <= nkeys; k++) if (mask >> (k - 1) & 1) { o = Op(); o.id = nid++; o.kind = INSERT; o.a = k; record(ctx, a, 99, o); }
+            // prefill order (knob, default ascending): descending or a knob-seeded shuffle gives search trees other initial shapes than the
+            // one sorted insertion always builds (pre-existing inner nodes that a later double rotation moves while readers sit on them)
+            std::vector<int> pre; for (int k = 1; k <= nkeys; k++) if (mask >> (k - 1) & 1) pre.push_back(k);
+            long pord = P.knob("prefill_order", 0);
+            if (pord == 1) std::reverse(pre.begin(), pre.end());
+            else if (pord >= 2) { unsigned long x = (unsigned long)pord * 2862933555777941757UL + 3037000493UL; for (size_t i = pre.size(); i > 1; i--) { x = x * 6364136223846793005UL + 1442695040888963407UL; std::swap(pre[i - 1], pre[(x >> 33) % i]); } }
+            for (int k : pre) { o = Op(); o.id = nid++; o.kind = INSERT; o.a = k; record(ctx, a, 99, o); }
             long emask = P.knob("pre_erase_mask");
             for (int k = 1; k <= nkeys; k++) if (emask >> (k - 1) & 1) { o = Op(); o.id = nid++; o.kind = ERASE; o.a = k; record(ctx, a, 99, o); }
             int eager = (int)P.knob("eager");
